@@ -609,14 +609,26 @@ def _get_specific_tags(
     with open(xml_path, "rb") as f:
         it = ET.iterparse(f, events=["start", "end"])
         dict_tags = {}
+        # Requested elements whose closing tag has not been read yet. At its "start"
+        # event an element only holds the children the parser happens to have read
+        # already (the file is parsed chunk by chunk), so it is copied at its "end"
+        # event, and nothing is cleared while a requested element is still open.
+        open_tags: list[ET.Element] = []
         for event, element in it:
-            if event == "start" and element.tag in tag_names:
-                dict_tags[element.tag] = deepcopy(element)
-                tag_names.remove(element.tag)
-                if not tag_names:  # All the tags have been found.
-                    break
+            if event == "start":
+                if element.tag in tag_names:
+                    tag_names.remove(element.tag)
+                    open_tags.append(element)
+                continue
 
-            if event == "end":
+            if open_tags and element is open_tags[-1]:
+                open_tags.pop()
+                copied = deepcopy(element)
+                copied.tail = None  # Text following the element is not part of it.
+                dict_tags[element.tag] = copied
+                if not tag_names and not open_tags:  # All the tags have been found.
+                    break
+            if not open_tags:
                 element.clear()
 
         if tag_names:
